@@ -851,3 +851,40 @@ def check_options_readonly(ctx, rule, prog):
            'through a local alias (%d functions that touch options examined; offenders: %s)'
            % (n_funcs, ['%s.%s: %s' % (m.name, q, norm(n)[:60]) for m, q, n in sites]),
            sites[0][0] if sites else prog.mod('lib'), sites[0][2] if sites else prog.mod('lib').tree)
+
+
+def check_ph_label_precision(ctx, rule, prog, sections):
+    """The pH values that are printed are those of the requested grid: a label
+    with a fixed number of decimals turns the points of a finer grid into
+    other values (step 0.025: 1.325 is printed as 1.33 next to the charge at
+    1.325; step 0.005: every label twice).  So the precision of every printed
+    pH is itself a formatted-in value computed from the grid, not a literal."""
+    from sa.astutil import string_builders
+    out = prog.mod('output')
+    for qual in sections:
+        fn = out.func(qual)
+        ph_vars = set()
+        for node in walk_no_nested(fn):
+            if isinstance(node, ast.For) and isinstance(node.target, (ast.Tuple, ast.List)) \
+                    and node.target.elts and 'profile' in norm(node.iter):
+                ph_vars.add(norm(node.target.elts[0]))
+            if isinstance(node, ast.Assign) and isinstance(node.targets[0], (ast.Tuple, ast.List)) \
+                    and 'get_folding_profile' in norm(node.value) and len(node.targets[0].elts) == 4:
+                e = node.targets[0].elts
+                for grp, idxs in ((e[1], (0,)), (e[2], (0, 1)), (e[3], (0, 1))):
+                    parts = grp.elts if isinstance(grp, (ast.Tuple, ast.List)) else []
+                    for i in idxs:
+                        if i < len(parts):
+                            ph_vars.add(norm(parts[i]))
+        fixed, n = [], 0
+        for call, tpl in string_builders(fn):
+            for f in tpl:
+                if f[0] == 'fld' and f[1] in ph_vars:
+                    n += 1
+                    if '{' not in f[2]:
+                        fixed.append((call, f))
+        ctx.ob(rule, 'labels:pH-precision-follows-grid:' + qual, n >= 1 and not fixed,
+               '%s prints %d pH values (%s), each with a number of decimals taken from the grid '
+               '(%d with a literal precision: %s)' % (qual, n, sorted(ph_vars), len(fixed),
+                                                     [f[1] + ':' + f[2] for _c, f in fixed][:6]),
+               out, fixed[0][0] if fixed else fn)
